@@ -24,8 +24,8 @@ MANIFEST = {
             'roots are never RUNNING/PAUSED/IDLE; a row is never removed without its parent; after a normal '
             'evaluation no removed root is newer than a kept eligible one (ties may fall either way); the '
             'remaining rows are parent-closed; the loops stop within |population|+1 iterations because every '
-            'non-empty batch strictly shrinks the population. The statement "an unset option means no '
-            'constraint" is proved false for older_than (TypeError, defect M) and true for the others. The '
+            'non-empty batch strictly shrinks the population; an unset option imposes no constraint (unset '
+            'older_than: only the max_finished rule applies; unset/0 max_finished: only the age rule). The '
             'model is tied to the code by running both on generated populations x option combinations, and an '
             'independent monitor evaluates the property statement on the real before/after row sets.',
     'note': 'sqlite with foreign keys ON stands for the production RDBMS (cascade, ORDER BY/OFFSET/LIMIT '
@@ -390,10 +390,11 @@ def stream_defaults(ctx):
 
 
 def stream_periodic(ctx, n):
-    """Defect M end to end: the policy object is built from the configuration, the periodic-task
-    runner calls the evaluation.  With only max_finished_executions set the task IS registered
-    and every evaluation dies in timedelta(minutes=None); the runner swallows the exception."""
-    from harness import expire_driver as ed
+    """Regression for defect M(1) end to end: the policy object is built from a configuration that
+    sets only max_finished_executions, the periodic-task runner calls the evaluation.  The task
+    must be registered, the evaluation must apply the count rule (model: `evaluate` with
+    olderThan = none) and raise nothing.  The runner swallows exceptions, so a failure shows as
+    "nothing deleted"; it is then confirmed by a direct evaluation of the same case."""
     for i in range(n):
         case = gen_case(ctx.rng)
         case['cfg'].update(evaluationInterval=1, olderThan=None,
@@ -404,19 +405,20 @@ def stream_periodic(ctx, n):
         roots_fin = [k for k, r in before.items() if r[0] == 'wf' and r[4] is None and r[1] in FINISHED
                      and r[1] not in case['cfg']['ignoredStates']]
         ctx.evaluated('periodic', case_key(case), nontrivial=len(roots_fin) > case['cfg']['maxFinished'])
+        if len(roots_fin) > case['cfg']['maxFinished']:
+            ctx.count('periodic', 'superfluous-present')
         mo = ctx.driver().call('expire.enabled', case['cfg'])
         if mo != registered:
             ctx.disagree('periodic', case['cfg'], mo, registered)
-        # the runner swallowed the TypeError: nothing may have been deleted, and the model says
-        # crashed:olderThanUnset with the population intact
         margs, remaining = model_input(case, after, dict(info, victim=None))
         m2 = ctx.driver().call('expire.evaluate', margs)
-        if before != after or m2.get('outcome') != 'crashed:olderThanUnset' or \
-                sorted(m2['remaining']) != sorted(remaining):
-            ctx.disagree('periodic', case, m2, {'deleted': sorted(set(before) - set(after))})
-        if registered and before == after and len(roots_fin) > case['cfg']['maxFinished']:
-            ctx.count('periodic', 'registered-but-never-deletes-superfluous')
-            # confirm the reason by a direct evaluation of the same configuration
+        same = m2.get('outcome') == 'ok' and sorted(m2['remaining']) == sorted(remaining)
+        if not same:
+            ctx.disagree('periodic', case, m2, {'remaining': sorted(remaining)})
+        for what, sig in monitor(case['cfg'], case['now'], before, after, info):
+            ctx.violation(what, case, sig)
+        if not same:
+            # the runner hides exceptions: evaluate the same case directly
             c2 = dict(case, via_periodic=False)
             b2, a2, i2 = run_impl(c2)
             for what, sig in monitor(c2['cfg'], c2['now'], b2, a2, i2):
